@@ -159,7 +159,36 @@ class C11(Prop):
             lines = mutate_lines(random.Random(src["mutate"]), lines)
         return null_unusable(lines)
 
-    predicates = {"las3_input": pred_las3, "quoted_text_cells": pred_quoted, "empty_null_value": pred_empty_null}
+    def pred_index_unit_periods(sc, v, params):
+        """known finding: STRT/STOP/STEP carry a unit with '..' or a trailing period; write() copies it to the index curve's
+        ~Curves line, where the reader's double-period rule takes it for part of the mnemonic"""
+        import random
+        src = sc["src"]
+        if src["kind"] == "corpus":
+            try:
+                lines = corpus_bytes(src["file"]).decode("latin-1").replace("\r\n", "\n").split("\n")
+            except Exception:
+                return False
+        else:
+            lines = list(src.get("lines", []))
+        if src.get("mutate") is not None:
+            lines = mutate_lines(random.Random(src["mutate"]), lines)
+        sec = None
+        for ln in lines:
+            t = ln.strip()
+            if t.startswith("~"):
+                sec = t[1:2].upper()
+            elif sec == "W" and "." in t and t.split(".", 1)[0].strip().upper() in ("STRT", "STOP", "STEP"):
+                rest = t.split(".", 1)[1]
+                unit = rest.split(None, 1)[0] if rest[:1].strip() else ""
+                unit = unit.split(":")[0]
+                core = unit.strip("()[]")
+                if ".." in unit or core.endswith("."):
+                    return True
+        return False
+
+    predicates = {"las3_input": pred_las3, "quoted_text_cells": pred_quoted, "empty_null_value": pred_empty_null,
+                  "index_unit_with_trailing_periods": pred_index_unit_periods}
     quick = {"runs": 2500, "wall": 60}
     thorough = {"runs": 100000, "wall": 900}
 
